@@ -1,14 +1,26 @@
 import ColoVerif.Proofs.Expand
+import ColoVerif.Proofs.ExpandF
+import ColoVerif.Proofs.ExpandFBound
+import ColoVerif.Model.LegacyExpandF
 /-
 C18 — cell expansion respects density caps and never touches fixed cells.
 
-All theorems are about the definitions of `Model/Expand.lean`, which the driver `drv_C18` executes
-against `Circuit::expandCellsToDensity`, `expandCellsByFactor`, `computeCellExpansion` and
-`computeRowPlacementArea`.  They are over exact rationals: floating-point rounding is not modelled
-(see `PARTIAL` in tools/props/C18.py).  `FrameCell a b` (Proofs/Expand.lean): `b` is `a` except possibly
-for its width, and `b = a` when `a` is fixed.  `NonnegSizes`: movable cells have non-negative sizes (the
-property's domain).  `expandCellsByFactor` is the repaired function (fixes/expand-by-factor-area.diff);
-`legacy_byFactor_exceeds_cap` shows that the unrepaired one breaks the cap.
+Two models, both executed by the driver `drv_C18` against `Circuit::expandCellsToDensity`,
+`expandCellsByFactor`, `computeCellExpansion` and `computeRowPlacementArea`:
+
+* `Model/Expand.lean` (first part of this file): exact rationals, compared with the code on dyadic instances
+  where no floating-point operation rounds.  `FrameCell a b` (Proofs/Expand.lean): `b` is `a` except possibly
+  for its width, and `b = a` when `a` is fixed.  `NonnegSizes`: movable cells have non-negative sizes (the
+  property's domain).  `expandCellsByFactor` is the repaired function (fixes/expand-by-factor-area.diff);
+  `legacy_byFactor_exceeds_cap` shows that the unrepaired one breaks the cap.
+* `Model/ExpandF.lean` (second part, theorems `…F…`): the functions as compiled, every `double` operation
+  rounded by `F64.f64` and every `float` operation by `F64.f32'`, compared with the code on arbitrary
+  arguments, result for result.  Frame, never narrower (for `expandCellsByFactor` after
+  `fixes/c18-byfactor-wide-cells.diff`, every width; the unrepaired step is `Model/LegacyExpandF.lean` with
+  `legacy_byFactorF_wide_witness`; acceptance threshold `0.999f`), utilisation of `expandCellsToDensity` with an explicit
+  rounding slack, maximum rule of `computeCellExpansion` over the float-rounded region factors (independent of
+  the order `std::sort` leaves the map in).  `byFactorF_utilisation_full_statement` is stated, its `float`-path
+  part proved (`byFactorF_utilisation_partial`).
 -/
 namespace ColoVerif.C18
 open ColoVerif ColoVerif.Expand
@@ -342,5 +354,457 @@ example : NonnegSizes witness.cells := by
   simp [witness] at hcl
   subst hcl
   decide
+
+/-! ## The binary64/binary32-exact model (`Model/ExpandF.lean`)
+
+The theorems below are about `ExpandF.*`: the same four functions with every `double` operation rounded by
+`F64.f64` and every `float` operation by `F64.f32'` (IEEE-754 round-to-nearest-even over exact rationals),
+which the driver executes against the real code on arbitrary (non-dyadic) arguments, result for result.
+The functions are total; `ExpandF.densityGuard` / `byFactorGuard` / `cellExpansionGuard` are the decidable
+domains on which they are the compiled code (finite values, conversions to `int`/`long long` in range).
+A hypothesis of the form `… ≠ 0`, `isI32 …`, `cellsGuard …` below is a conjunct of the corresponding guard. -/
+
+/-! ### frame (all inputs) -/
+
+/-- `expandCellsToDensity`, with rounding: only the widths of movable cells change. -/
+theorem expandF_frame (c : Circuit) (target margin maxExp : Rat) :
+    (ExpandF.expandCellsToDensity c target margin maxExp).rows = c.rows ∧
+    (ExpandF.expandCellsToDensity c target margin maxExp).nets = c.nets ∧
+    (ExpandF.expandCellsToDensity c target margin maxExp).cells.length = c.cells.length ∧
+    ∀ i, FrameCell (c.cell i) ((ExpandF.expandCellsToDensity c target margin maxExp).cell i) := by
+  unfold ExpandF.expandCellsToDensity ExpandF.toDensityWith
+  split
+  · exact ⟨rfl, rfl, rfl, fun i => FrameCell.refl _⟩
+  · exact ⟨rfl, rfl, ExpandF.expandCells_length _ _ _ _, fun i => ExpandF.frame_expandCells _ _ _ _ i⟩
+
+/-- `expandCellsByFactor`, with rounding: only the widths of movable cells change (nothing when it throws). -/
+theorem byFactorF_frame (c c' : Circuit) (efs : List Rat) (maxD margin ret : Rat)
+    (h : ExpandF.expandCellsByFactor c efs maxD margin = some (c', ret)) :
+    c'.rows = c.rows ∧ c'.nets = c.nets ∧ c'.cells.length = c.cells.length ∧
+    ∀ i, FrameCell (c.cell i) (c'.cell i) := by
+  unfold ExpandF.expandCellsByFactor at h
+  split at h
+  · simp at h
+  · simp only [Option.some.injEq] at h
+    unfold ExpandF.byFactorWith at h
+    split at h
+    · obtain ⟨rfl, _⟩ := Prod.mk.inj h
+      exact ⟨rfl, rfl, rfl, fun i => FrameCell.refl _⟩
+    · obtain ⟨rfl, _⟩ := Prod.mk.inj h
+      exact ⟨rfl, rfl, ExpandF.applyFactors_length _ _, fun i => ExpandF.frame_applyFactors _ _ i⟩
+
+/-- no-op when already dense, with rounding: the test is on the rounded quotient `(double)A / (double)R`. -/
+theorem noopF_when_dense (c : Circuit) (target margin maxExp : Rat)
+    (h : movableArea c.cells = 0 ∨ ExpandF.rowPlacementArea c margin = 0 ∨ ExpandF.density c margin ≥ target) :
+    ExpandF.expandCellsToDensity c target margin maxExp = c := by
+  unfold ExpandF.expandCellsToDensity ExpandF.toDensityWith
+  rw [if_pos (show ExpandF.noopOf _ _ target from h)]
+
+theorem noopF_when_dense_byFactor (c : Circuit) (efs : List Rat) (maxD margin : Rat)
+    (hvalid : ExpandF.factorsRejected c efs = false)
+    (h : movableArea c.cells = 0 ∨ ExpandF.rowPlacementArea c margin = 0 ∨ ExpandF.density c margin ≥ maxD) :
+    ExpandF.expandCellsByFactor c efs maxD margin = some (c, 1) := by
+  unfold ExpandF.expandCellsByFactor ExpandF.byFactorWith
+  rw [if_neg (by simp [hvalid]), if_pos (show ExpandF.noopOf _ _ maxD from h)]
+
+/-! ### never narrower -/
+
+/-- With rounding: a movable cell whose width does not exceed the (rounded) cap
+`(double)maxRowWidth * maxExpandedWidth` is not narrower after `expandCellsToDensity`.  Transfer of
+`expand_not_narrower` by monotonicity of `f64`: `density < target` gives a rounded factor `≥ 1`, hence
+`f64 (w·factor) ≥ w`.  No sign condition on `maxExpandedWidth` is needed.  `hd` (the rounded density is not
+0, a conjunct of `densityGuard`) excludes a quotient that underflows. -/
+theorem expandF_not_narrower (c : Circuit) (target margin maxExp : Rat) (hA : 0 < movableArea c.cells)
+    (hR : 0 < ExpandF.rowPlacementArea c margin) (hd : ExpandF.density c margin ≠ 0) (i : Nat)
+    (hsz : ExpandF.isI32 (c.cell i).w = true)
+    (hw : ((c.cell i).w : Rat) ≤ ExpandF.widthCap c maxExp) :
+    (c.cell i).w ≤ ((ExpandF.expandCellsToDensity c target margin maxExp).cell i).w := by
+  unfold ExpandF.expandCellsToDensity ExpandF.toDensityWith
+  split
+  · exact Int.le_refl _
+  · rename_i hn
+    have hpos := ExpandF.densityOf_pos (le_of_lt hA) (le_of_lt hR) hd
+    exact ExpandF.expandCells_not_narrower _ _ (ExpandF.factorOf_ge_one _ _ target hpos hn) c.cells 0 i
+      (ExpandF.abs53_of_abs31 (ExpandF.isI32_abs hsz)) hw
+
+/-- With rounding and factors at least 1: `expandCellsByFactor` (after `fixes/c18-byfactor-wide-cells.diff`)
+makes no cell narrower, whatever its width: every applied factor, adjusted or not, is at least 1 after rounding,
+and the width update keeps at least the old width for such a factor.  (Up to `2^24` the float product alone is
+already at least the width, `ExpandF.applyOne_eq_of_small`; above, see `legacy_byFactorF_wide_witness`.) -/
+theorem byFactorF_not_narrower (c c' : Circuit) (efs : List Rat) (maxD margin ret : Rat)
+    (h : ExpandF.expandCellsByFactor c efs maxD margin = some (c', ret)) (he : ∀ e ∈ efs, 1 ≤ e) (i : Nat) :
+    (c.cell i).w ≤ (c'.cell i).w := by
+  unfold ExpandF.expandCellsByFactor at h
+  split at h
+  · simp at h
+  · simp only [Option.some.injEq] at h
+    unfold ExpandF.byFactorWith at h
+    split at h
+    · obtain ⟨rfl, _⟩ := Prod.mk.inj h; exact Int.le_refl _
+    · rename_i hn
+      obtain ⟨rfl, _⟩ := Prod.mk.inj h
+      have hd : ExpandF.densityOf (movableArea c.cells) (ExpandF.rowPlacementArea c margin) < maxD := by
+        unfold ExpandF.noopOf at hn
+        exact not_le.mp (fun hh => hn (Or.inr (Or.inr hh)))
+      exact ExpandF.applyFactors_not_narrower _ _ i (ExpandF.effectiveOf_mem_ge_one efs maxD _ _ hd he)
+
+/-- The repair is invisible to the rational model `Model/Expand.lean`: for a width `w ≥ 0` and a factor
+`e ≥ 1` the exact product truncates to at least `w`, so `std::max(newW, w)` is `newW`. -/
+theorem byFactor_repair_noop_exact (w : Int) (e : Rat) (hw : 0 ≤ w) (he : 1 ≤ e) :
+    max (truncRat ((w : Rat) * e)) w = truncRat ((w : Rat) * e) := by
+  have hq : (0 : Rat) ≤ (w : Rat) := by exact_mod_cast hw
+  have h2 : (w : Rat) ≤ (w : Rat) * e := by nlinarith
+  exact max_eq_left (le_truncRat w _ (le_trans hq h2) h2)
+
+/-- What holds for every ACCEPTED factor vector (`e ≥ 0.999f`, so also for factors in `[0.999f, 1)`): every
+applied factor is at least `0.999f` after the ratio adjustment and all roundings, hence a movable cell of
+width `w ≥ 0` ends at least `(int) f32' (f32' w · 0.999f)` wide.  (Sharp: see `byFactorF_below_one_witness`.) -/
+theorem byFactorF_width_lower_bound (c c' : Circuit) (efs : List Rat) (maxD margin ret : Rat)
+    (h : ExpandF.expandCellsByFactor c efs maxD margin = some (c', ret)) (i : Nat) (hi : i < c.cells.length)
+    (hfx : (c.cell i).fixed = false) (hw : 0 ≤ (c.cell i).w) :
+    (c'.cell i).w = (c.cell i).w ∨
+    truncRat (ExpandF.scaledF (c.cell i).w ExpandF.minFactor) ≤ (c'.cell i).w := by
+  unfold ExpandF.expandCellsByFactor at h
+  split at h
+  · simp at h
+  · rename_i hrej
+    simp only [ExpandF.factorsRejected, Bool.or_eq_true, decide_eq_true_eq, List.any_eq_true, not_or,
+      not_exists, not_and, ne_eq, not_not, not_lt] at hrej
+    obtain ⟨hlen, hmin⟩ := hrej
+    simp only [Option.some.injEq] at h
+    unfold ExpandF.byFactorWith at h
+    split at h
+    · obtain ⟨rfl, _⟩ := Prod.mk.inj h; exact Or.inl rfl
+    · rename_i hn
+      obtain ⟨rfl, _⟩ := Prod.mk.inj h
+      right
+      have hd : ExpandF.densityOf (movableArea c.cells) (ExpandF.rowPlacementArea c margin) < maxD := by
+        unfold ExpandF.noopOf at hn
+        exact not_le.mp (fun hh => hn (Or.inr (Or.inr hh)))
+      have hge := ExpandF.effectiveOf_mem_ge_min efs maxD _ (ExpandF.expandedDensityOf
+        (ExpandF.expandedArea 0 c.cells efs) (ExpandF.rowPlacementArea c margin)) hd (fun e he => hmin e he)
+      have hl : i < (ExpandF.effectiveOf efs maxD
+          (ExpandF.densityOf (movableArea c.cells) (ExpandF.rowPlacementArea c margin))
+          (ExpandF.expandedDensityOf (ExpandF.expandedArea 0 c.cells efs)
+            (ExpandF.rowPlacementArea c margin))).length := by
+        unfold ExpandF.effectiveOf
+        split
+        · simp only [List.length_map]; omega
+        · omega
+      exact ExpandF.applyFactors_ge ExpandF.minFactor (by decide +kernel) c.cells _ i hge hw hl hfx
+
+/-- one movable cell 1000 x 1 in a row 4000 x 1 -/
+def witnessBelowOne : Circuit :=
+  ⟨[⟨1000, 1, 0, 0, .N, false, true, .ANY⟩], [], [⟨⟨0, 4000, 0, 1⟩, .N⟩]⟩
+
+/-- The acceptance threshold is `0.999f`, not 1: the factor `0.999f` is accepted and makes the 1000-wide
+cell 999 wide (replayed on the real code as case `w2`); the bound of `byFactorF_width_lower_bound` is
+attained (a factor below 1 is not raised by the repair).  Factors below 1 are outside the property's domain ("factor vectors >= 1"). -/
+theorem byFactorF_below_one_witness :
+    ((ExpandF.expandCellsByFactor witnessBelowOne [ExpandF.minFactor] 1 0).map fun r => r.1.cells.map (·.w))
+      = some [999] ∧
+    truncRat (ExpandF.scaledF 1000 ExpandF.minFactor) = 999 ∧
+    ExpandF.byFactorGuard witnessBelowOne [ExpandF.minFactor] 1 0 = true := by
+  decide +kernel
+
+/-- one movable cell (2^24+1) x 1 in a row 2^26 x 1 -/
+def witnessWide : Circuit :=
+  ⟨[⟨16777217, 1, 0, 0, .N, false, true, .ANY⟩], [], [⟨⟨0, 67108864, 0, 1⟩, .N⟩]⟩
+
+/-- Before `fixes/c18-byfactor-wide-cells.diff` never-narrower was false above `2^24`: with the factor
+exactly `1.0f` a cell of width `2^24 + 1` became `2^24` wide, because `cellWidth_[i] *= expansion[i]` converts
+the width to `float` first; the repaired function keeps the width (replayed on the real code as case `w3`). -/
+theorem legacy_byFactorF_wide_witness :
+    ((LegacyExpandF.expandCellsByFactor witnessWide [1] 1 0).map fun r => r.1.cells.map (·.w))
+      = some [16777216] ∧
+    ((ExpandF.expandCellsByFactor witnessWide [1] 1 0).map fun r => r.1.cells.map (·.w)) = some [16777217] ∧
+    ExpandF.byFactorGuard witnessWide [1] 1 0 = true := by
+  decide +kernel
+
+-- non-vacuity of `expandF_not_narrower` / `byFactorF_not_narrower`
+example : 0 < movableArea witness.cells ∧ 0 < ExpandF.rowPlacementArea witness 0 ∧
+    ExpandF.density witness 0 ≠ 0 ∧ ExpandF.isI32 (witness.cell 0).w = true ∧
+    ((witness.cell 0).w : Rat) ≤ ExpandF.widthCap witness 1 ∧
+    ExpandF.densityGuard witness (3 / 4) 0 1 = true ∧
+    (ExpandF.expandCellsToDensity witness (3 / 4) 0 1).cells.map (·.w) = [12] := by
+  decide +kernel
+
+example : ((ExpandF.expandCellsByFactor witness [19 / 16] (85 / 128) 0).map fun r => r.1.cells.map (·.w))
+    = some [10] := by decide +kernel
+
+/-! ### utilisation after `expandCellsToDensity`, with an explicit rounding slack -/
+
+/-- **Not above the target beyond rounding.**  On the domain of the model (`densityGuard`), density below the
+target, positive areas, non-negative sizes, `maxExpandedWidth ≥ 0`: after `expandCellsToDensity` *as compiled*
+the movable area is at most
+
+  `target · rowArea · (1 + 2^-50)  +  (number of cells touched) · 2^-51 · H`
+
+for every bound `H` on the heights of the touched cells.  The relative term covers the roundings of
+`(double)cellArea`, `(double)rowArea`, the density, the factor and `w * expansionFactor`
+(`(1+u)³/(1−u)² ≤ 1+2^-50`, `u = 2^-53`); the absolute term the roundings of `h * (fracW - newW)` and
+`missingArea += …` (at most `4u·H` per cell; `fracW - newW` and every `missingArea -= h` are exact).  With
+exact arithmetic this is `carry_bound` (1): `≤ target · rowArea`. -/
+theorem expandF_utilisation (c : Circuit) (target margin maxExp : Rat)
+    (hg : ExpandF.densityGuard c target margin maxExp = true)
+    (hA : 0 < movableArea c.cells) (hR : 0 < ExpandF.rowPlacementArea c margin) (hx : 0 ≤ maxExp)
+    (hsz : NonnegSizes c.cells) (hn : ¬ ExpandF.densityNoop c target margin)
+    (H : Int) (hH0 : 0 ≤ H) (hH : ∀ cl ∈ c.cells, active cl = true → cl.h ≤ H) :
+    (movableArea (ExpandF.expandCellsToDensity c target margin maxExp).cells : Rat) ≤
+      target * (ExpandF.rowPlacementArea c margin : Rat) * (1 + (2 : Rat) ^ (-50 : Int)) +
+      ((c.cells.filter active).length : Rat) * ((2 : Rat) ^ (-51 : Int) * (H : Rat)) := by
+  have hn' : ¬ ExpandF.noopOf (movableArea c.cells) (ExpandF.rowPlacementArea c margin) target := hn
+  -- the conjuncts of the guard
+  simp only [ExpandF.densityGuard, ExpandF.toDensityGuardWith, Bool.and_eq_true, Bool.or_eq_true,
+    decide_eq_true_eq] at hg
+  obtain ⟨⟨⟨⟨hsizes, _⟩, _⟩, _⟩, ⟨_, hR64⟩, hrest⟩ := hg
+  rcases hrest with hno | ⟨⟨⟨hd, _⟩, _⟩, hcg⟩
+  · exact absurd hno hn'
+  have hsz32 : ∀ cl ∈ c.cells, |cl.w| ≤ 2 ^ 31 ∧ |cl.h| ≤ 2 ^ 31 := by
+    intro cl hcl
+    have := (List.all_eq_true.mp hsizes) cl hcl
+    simp only [Bool.and_eq_true] at this
+    exact ⟨ExpandF.isI32_abs this.1, ExpandF.isI32_abs this.2⟩
+  -- factor and cap
+  have hdpos := ExpandF.densityOf_pos (le_of_lt hA) (le_of_lt hR) hd
+  have hF1 := ExpandF.factorOf_ge_one _ _ target hdpos hn'
+  have hcap0 : 0 ≤ ExpandF.widthCap c maxExp := by
+    unfold ExpandF.widthCap
+    exact F64.f64_nonneg (mul_nonneg (ExpandF.d_nonneg (maxRowWidth_nonneg c.rows)) hx)
+  have hcapfix : F64.f64 (ExpandF.widthCap c maxExp) = ExpandF.widthCap c maxExp := by
+    unfold ExpandF.widthCap; exact F64.f64_idem _
+  have hcells : (ExpandF.expandCellsToDensity c target margin maxExp).cells =
+      ExpandF.expandCells (ExpandF.factorOf (movableArea c.cells) (ExpandF.rowPlacementArea c margin) target)
+        (ExpandF.widthCap c maxExp) 0 c.cells := by
+    unfold ExpandF.expandCellsToDensity ExpandF.toDensityWith; rw [if_neg hn']
+  rw [hcells]
+  obtain ⟨hloop, hfin⟩ := ExpandF.loop_bound _ _ H (by linarith) hcap0 hcapfix c.cells 0 (le_refl _)
+    (by exact_mod_cast hH0) hcg (fun cl hcl => (hsz32 cl hcl).2) hH
+  have hfa := ExpandF.fracArea_le _ (ExpandF.widthCap c maxExp) hF1 c.cells hsz (fun cl hcl => (hsz32 cl hcl).1)
+  have hfl := ExpandF.factor_le _ _ target hA hR (ExpandF.isI64_abs hR64) hd hn'
+  have hnum := ExpandF.slack_numeric
+  have hu := F64.z2_pos (-53)
+  have hu1 : (2 : Rat) ^ (-53 : Int) < 1 := by rw [F64.two_zpow_neg53]; norm_num
+  have ht0 : 0 < target := by
+    unfold ExpandF.noopOf at hn'
+    have : ExpandF.densityOf (movableArea c.cells) (ExpandF.rowPlacementArea c margin) < target :=
+      not_le.mp (fun h => hn' (Or.inr (Or.inr h)))
+    linarith
+  have hRq : (0 : Rat) < (ExpandF.rowPlacementArea c margin : Rat) := by exact_mod_cast hR
+  have hAq : (0 : Rat) < (movableArea c.cells : Rat) := by exact_mod_cast hA
+  unfold ExpandF.stepSlack at hloop
+  generalize ExpandF.factorOf (movableArea c.cells) (ExpandF.rowPlacementArea c margin) target = F at *
+  generalize (movableArea (ExpandF.expandCells F (ExpandF.widthCap c maxExp) 0 c.cells) : Rat) = area' at *
+  generalize ExpandF.finalMissing F (ExpandF.widthCap c maxExp) 0 c.cells = fin at *
+  generalize ExpandF.fracArea F (ExpandF.widthCap c maxExp) c.cells = fa at *
+  generalize ((c.cells.filter active).length : Rat) * ((2 : Rat) ^ (-51 : Int) * (H : Rat)) = slack at *
+  generalize (ExpandF.rowPlacementArea c margin : Rat) = R at *
+  generalize (movableArea c.cells : Rat) = A at *
+  generalize (2 : Rat) ^ (-50 : Int) = v at *
+  generalize (2 : Rat) ^ (-53 : Int) = u at *
+  -- X = area' − slack ≤ F (1+u) A, and F A (1−u)² ≤ (1+u)² t R, (1+u)³ ≤ (1+v)(1−u)²
+  have hX : area' - slack ≤ F * (1 + u) * A := by linarith
+  have hpos : 0 < (1 - u) ^ 2 := by have : 0 < 1 - u := by linarith
+                                    exact pow_pos this 2
+  have h1 : (area' - slack) * (1 - u) ^ 2 ≤ F * (1 + u) * A * (1 - u) ^ 2 :=
+    mul_le_mul_of_nonneg_right hX (le_of_lt hpos)
+  have h2 : F * (1 + u) * A * (1 - u) ^ 2 ≤ (1 + u) * ((1 + u) ^ 2 * target * R) := by
+    have := mul_le_mul_of_nonneg_left hfl (show (0 : Rat) ≤ 1 + u by linarith)
+    linarith
+  have htR : 0 ≤ target * R := le_of_lt (mul_pos ht0 hRq)
+  have h3 : (1 + u) * ((1 + u) ^ 2 * target * R) ≤ (1 + v) * (1 - u) ^ 2 * (target * R) := by
+    have := mul_le_mul_of_nonneg_right hnum htR
+    linarith
+  have h4 : (area' - slack) * (1 - u) ^ 2 ≤ (target * R * (1 + v)) * (1 - u) ^ 2 := by linarith
+  have := le_of_mul_le_mul_right h4 hpos
+  linarith
+
+-- non-vacuity: the hypotheses of `expandF_utilisation` hold on the witness (target 3/4, one cell of height 1)
+example : ExpandF.densityGuard witness (3 / 4) 0 1 = true ∧ 0 < movableArea witness.cells ∧
+    0 < ExpandF.rowPlacementArea witness 0 ∧ ¬ ExpandF.densityNoop witness (3 / 4) 0 ∧
+    (∀ cl ∈ witness.cells, active cl = true → cl.h ≤ 1) := by
+  refine ⟨by decide +kernel, by decide +kernel, by decide +kernel, by decide +kernel, ?_⟩
+  intro cl hcl _
+  simp [witness] at hcl
+  subst hcl
+  decide
+
+/-! ### utilisation after `expandCellsByFactor`: full statement and the proved part -/
+
+/-- **Not above the cap beyond rounding**, full statement (NOT proved; supported by the exact model/code
+correspondence on arbitrary arguments and by the direct oracle): for factors at least 1, widths at most `2^24`,
+the movable area after `expandCellsByFactor` as compiled is at most `max(maxDensity·rowArea, area before)` up to
+a relative `2^-22` (two `float` roundings per cell: the adjusted factor and the product) and an absolute
+`n·2^-50·Σ eᵢ·areaᵢ` (the `double` accumulation of `expandedArea`, which the ratio adjustment divides by). -/
+def byFactorF_utilisation_full_statement : Prop :=
+  ∀ (c c' : Circuit) (efs : List Rat) (maxD margin ret : Rat),
+    ExpandF.byFactorGuard c efs maxD margin = true →
+    ExpandF.expandCellsByFactor c efs maxD margin = some (c', ret) → (∀ e ∈ efs, 1 ≤ e) →
+    0 < movableArea c.cells → 0 < ExpandF.rowPlacementArea c margin → NonnegSizes c.cells →
+    (∀ cl ∈ c.cells, cl.fixed = false → cl.w ≤ 2 ^ 24) →
+    (movableArea c'.cells : Rat) ≤
+      max (maxD * (ExpandF.rowPlacementArea c margin : Rat)) (movableArea c.cells : Rat) *
+        (1 + (2 : Rat) ^ (-22 : Int)) +
+      (c.cells.length : Rat) * (2 : Rat) ^ (-50 : Int) * expandedArea c.cells efs
+
+/-- The proved part of `byFactorF_utilisation_full_statement` — the `float` path
+`cellWidth_[i] *= expansion[i]`: for every accepted factor vector (so also factors in `[0.999f, 1)`),
+non-negative sizes and widths at most `2^24`, either nothing changes or the movable area afterwards is at most
+`(1 + 2^-24) · Σ e'ᵢ·areaᵢ` (exact sum) over the factors `e'` that are actually applied
+(`ExpandF.effectiveFactors`: the given ones, or their ratio-adjusted, `float`-rounded versions, each at least 1
+when the given one is — `byFactorF_not_narrower` — and at least `0.999f` in any case).
+MISSING: the bound of `Σ e'ᵢ·areaᵢ` by `maxDensity·rowArea` through the `double` computations of `expandedArea`,
+`expandedDensity` and `ratio` (in exact arithmetic: `byFactor_under_cap`). -/
+theorem byFactorF_utilisation_partial (c c' : Circuit) (efs : List Rat) (maxD margin ret : Rat)
+    (h : ExpandF.expandCellsByFactor c efs maxD margin = some (c', ret)) (hsz : NonnegSizes c.cells)
+    (hw : ∀ cl ∈ c.cells, cl.fixed = false → cl.w ≤ 2 ^ 24) :
+    c' = c ∨
+    ((movableArea c'.cells : Rat) ≤ (1 + (2 : Rat) ^ (-24 : Int)) *
+        expandedArea c.cells (ExpandF.effectiveFactors c efs maxD margin) ∧
+      ∀ e ∈ ExpandF.effectiveFactors c efs maxD margin, ExpandF.minFactor ≤ e) := by
+  unfold ExpandF.expandCellsByFactor at h
+  split at h
+  · simp at h
+  · rename_i hrej
+    simp only [ExpandF.factorsRejected, Bool.or_eq_true, decide_eq_true_eq, List.any_eq_true, not_or,
+      not_exists, not_and, ne_eq, not_not, not_lt] at hrej
+    obtain ⟨hlen, hmin⟩ := hrej
+    simp only [Option.some.injEq] at h
+    unfold ExpandF.byFactorWith at h
+    split at h
+    · obtain ⟨rfl, _⟩ := Prod.mk.inj h; exact Or.inl rfl
+    · rename_i hn
+      obtain ⟨rfl, _⟩ := Prod.mk.inj h
+      right
+      have hd : ExpandF.densityOf (movableArea c.cells) (ExpandF.rowPlacementArea c margin) < maxD := by
+        unfold ExpandF.noopOf at hn
+        exact not_le.mp (fun hh => hn (Or.inr (Or.inr hh)))
+      have hge : ∀ e ∈ ExpandF.effectiveFactors c efs maxD margin, ExpandF.minFactor ≤ e :=
+        ExpandF.effectiveOf_mem_ge_min efs maxD _ _ hd (fun e he => hmin e he)
+      have hl : c.cells.length = (ExpandF.effectiveFactors c efs maxD margin).length := by
+        unfold ExpandF.effectiveFactors ExpandF.effectiveOf
+        split
+        · simp only [List.length_map]; omega
+        · omega
+      refine ⟨?_, hge⟩
+      exact ExpandF.applyFactors_area_le c.cells _ hsz
+        (fun e he => le_trans (by decide +kernel : (1 / 2 : Rat) ≤ ExpandF.minFactor) (hge e he)) hw hl
+
+/-- The same float-path bound for ANY non-negative width (cells wider than `2^24` included, where `(float)w`
+rounds as well): area after ≤ `(1 + 2^-24)² · Σ e'ᵢ·areaᵢ`; the `std::max` of the repair costs nothing because
+`w ≤ w·e'` for `e' ≥ 1`.  Same missing part as `byFactorF_utilisation_partial`. -/
+theorem byFactorF_utilisation_partial_any_width (c c' : Circuit) (efs : List Rat) (maxD margin ret : Rat)
+    (h : ExpandF.expandCellsByFactor c efs maxD margin = some (c', ret)) (hsz : NonnegSizes c.cells) :
+    c' = c ∨
+    (movableArea c'.cells : Rat) ≤ (1 + (2 : Rat) ^ (-24 : Int)) ^ 2 *
+        expandedArea c.cells (ExpandF.effectiveFactors c efs maxD margin) := by
+  unfold ExpandF.expandCellsByFactor at h
+  split at h
+  · simp at h
+  · rename_i hrej
+    simp only [ExpandF.factorsRejected, Bool.or_eq_true, decide_eq_true_eq, List.any_eq_true, not_or,
+      not_exists, not_and, ne_eq, not_not, not_lt] at hrej
+    obtain ⟨hlen, hmin⟩ := hrej
+    simp only [Option.some.injEq] at h
+    unfold ExpandF.byFactorWith at h
+    split at h
+    · obtain ⟨rfl, _⟩ := Prod.mk.inj h; exact Or.inl rfl
+    · rename_i hn
+      obtain ⟨rfl, _⟩ := Prod.mk.inj h
+      right
+      have hd : ExpandF.densityOf (movableArea c.cells) (ExpandF.rowPlacementArea c margin) < maxD := by
+        unfold ExpandF.noopOf at hn
+        exact not_le.mp (fun hh => hn (Or.inr (Or.inr hh)))
+      have hge : ∀ e ∈ ExpandF.effectiveFactors c efs maxD margin, ExpandF.minFactor ≤ e :=
+        ExpandF.effectiveOf_mem_ge_min efs maxD _ _ hd (fun e he => hmin e he)
+      have hl : c.cells.length = (ExpandF.effectiveFactors c efs maxD margin).length := by
+        unfold ExpandF.effectiveFactors ExpandF.effectiveOf
+        split
+        · simp only [List.length_map]; omega
+        · omega
+      exact ExpandF.applyFactors_area_le_any c.cells _ hsz
+        (fun e he => le_trans (by decide +kernel : (1 / 2 : Rat) ≤ ExpandF.minFactor) (hge e he)) hl
+
+example : NonnegSizes witness.cells ∧ (∀ cl ∈ witness.cells, cl.fixed = false → cl.w ≤ 2 ^ 24) ∧
+    ¬ ExpandF.noopOf (movableArea witness.cells) (ExpandF.rowPlacementArea witness 0) (85 / 128) ∧
+    ((ExpandF.expandCellsByFactor witness [19 / 16] (85 / 128) 0).map fun r => r.1.cells.map (·.w)) = some [10] ∧
+    ExpandF.effectiveFactors witness [19 / 16] (85 / 128) 0 ≠ [19 / 16] := by
+  refine ⟨?_, ?_, by decide +kernel, by decide +kernel, by decide +kernel⟩
+  · intro cl hcl _
+    simp [witness] at hcl
+    subst hcl
+    decide
+  · intro cl hcl _
+    simp [witness] at hcl
+    subst hcl
+    decide
+
+/-! ### expansion factors from a congestion map -/
+
+/-- `computeCellExpansion` with rounding: it throws exactly on a negative fixed penalty or a penalty factor
+below 1; otherwise one factor per cell: 1 for a fixed cell; for a movable cell the factor is at least 1, at
+least the float-rounded region factor `regionFactor fp pf cg = f32' (f64 (f32' (f32' (f32' (cg−1)·pf) + fp) + 1))`
+of every congested region (`cg > 1`) its placement intersects, and it is either 1 (the only possible value when
+it intersects no congested region) or attained by such a region: the maximum of the rounded factors. -/
+theorem cellExpansionF_max (c : Circuit) (cmap : List (Rect × Rat)) (fp pf : Rat) :
+    (ExpandF.computeCellExpansion c cmap fp pf = none ↔ (fp < 0 ∨ pf < 1)) ∧
+    ∀ l, ExpandF.computeCellExpansion c cmap fp pf = some l →
+      l.length = c.cells.length ∧
+      ∀ i, i < c.cells.length →
+        ((c.cell i).fixed = true → l.getD i 1 = 1) ∧
+        ((c.cell i).fixed = false →
+          1 ≤ l.getD i 1 ∧
+          (∀ r cg, (r, cg) ∈ cmap → cg > 1 → r.intersects (c.cell i).placement = true →
+            ExpandF.regionFactor fp pf cg ≤ l.getD i 1) ∧
+          (l.getD i 1 = 1 ∨ ∃ r cg, (r, cg) ∈ cmap ∧ cg > 1 ∧ r.intersects (c.cell i).placement = true ∧
+            l.getD i 1 = ExpandF.regionFactor fp pf cg)) := by
+  unfold ExpandF.computeCellExpansion
+  constructor
+  · split <;> simp_all
+  · intro l hl
+    split at hl
+    · simp at hl
+    · simp only [Option.some.injEq] at hl
+      subst hl
+      refine ⟨by simp, ?_⟩
+      intro i hi
+      have hget : (c.cells.map fun cl =>
+          if cl.fixed then (1 : Rat) else regionMax cl.placement 1 (ExpandF.sortedMap cmap fp pf)).getD i 1 =
+          (if (c.cell i).fixed then (1 : Rat)
+            else regionMax (c.cell i).placement 1 (ExpandF.sortedMap cmap fp pf)) := by
+        simp only [Circuit.cell, List.getD_eq_getElem?_getD, List.getElem?_map]
+        rw [List.getElem?_eq_getElem hi]
+        simp
+      rw [hget]
+      constructor
+      · intro hf; simp [hf]
+      · intro hf
+        simp only [hf, Bool.false_eq_true, if_false]
+        refine ⟨regionMax_ge_acc _ _ _, ?_, ?_⟩
+        · intro r cg hm hc hint
+          exact regionMax_ge_mem _ _ _ r _ ((ExpandF.mem_sortedMap cmap fp pf r _).mpr ⟨cg, hm, hc, rfl⟩) hint
+        · rcases regionMax_attained (c.cell i).placement (ExpandF.sortedMap cmap fp pf) 1 with
+            h | ⟨r, e, hm, hint, he⟩
+          · exact Or.inl h
+          · obtain ⟨cg, hcm, hc, rfl⟩ := (ExpandF.mem_sortedMap cmap fp pf r e).mp hm
+            exact Or.inr ⟨r, cg, hcm, hc, hint, he⟩
+
+/-- The `std::sort` of the expansion map is unobservable: whatever order the (unstable) sort leaves the
+regions in — any permutation `m` of the unsorted map — the maximum a cell takes over it is the one of the model. -/
+theorem cellExpansionF_order_independent (place : Rect) (cmap : List (Rect × Rat)) (fp pf : Rat)
+    (m : List (Rect × Rat)) (hm : m.Perm (ExpandF.expansionMap cmap fp pf)) :
+    regionMax place 1 m = regionMax place 1 (ExpandF.sortedMap cmap fp pf) :=
+  ExpandF.regionMax_perm place (hm.trans (ExpandF.sortedMap_perm cmap fp pf).symm) 1
+
+/-- The rounded region factor is at least 1 and monotone in the congestion value, so "the largest factor
+among the intersected congested regions" is the factor of the largest congestion among them. -/
+theorem regionFactorF_ge_one_and_monotone (fp pf : Rat) (hfp : 0 ≤ fp) (hpf : 1 ≤ pf) :
+    (∀ cg, 1 < cg → 1 ≤ ExpandF.regionFactor fp pf cg) ∧
+    (∀ c₁ c₂, c₁ ≤ c₂ → ExpandF.regionFactor fp pf c₁ ≤ ExpandF.regionFactor fp pf c₂) :=
+  ⟨fun cg h => ExpandF.regionFactor_ge_one fp pf cg hfp (by linarith) (le_of_lt h),
+   fun _ _ h => ExpandF.regionFactor_mono fp pf (by linarith) h⟩
+
+-- the float factor differs from the rational one: 1/3-congestion over 1 with penalty factor 1.1f
+example : ExpandF.regionFactor 0 (11 / 10) (4 / 3) ≠ (4 / 3 - 1) * (11 / 10) + 0 + 1 := by decide +kernel
 
 end ColoVerif.C18
